@@ -135,7 +135,10 @@ fn needs(p1: &Stats, p8: &Stats) -> (usize, usize) {
 }
 
 fn execute(plan: &[Step], scale: usize, data_seed: u64, encoder: bool) -> Result<Vec<StepObs>, String> {
-    let mut rng = Rng::new(data_seed);
+    // shard contents may differ between the two scales, the choices (which
+    // shards are received) must not: they come from their own generator
+    let mut rng = Rng::new(data_seed ^ scale as u64);
+    let mut choice = Rng::new(data_seed);
     let mut enc: Option<Box<dyn DynEnc>> = None;
     let mut dec: Option<Box<dyn DynDec>> = None;
     let mut cur = (Api::Wrapper, 0usize, 0usize, 0usize);
@@ -231,7 +234,7 @@ fn execute(plan: &[Step], scale: usize, data_seed: u64, encoder: bool) -> Result
                 } else {
                     let recovery = codec::encode_fresh(Api::Rate(api_rate(api), EngineKind::NoSimd), k, r, size, &originals)
                         .map_err(|e| e.to_string())?;
-                    let (oi, ri, _) = gen::received_set(&mut rng, k, r);
+                    let (oi, ri, _) = gen::received_set(&mut choice, k, r);
                     let d = dec.as_mut().unwrap();
                     measure(|| -> Result<(u64, usize), String> {
                         for i in &oi {
